@@ -229,7 +229,7 @@ func (tf *testFile) describe() string {
 		prev = c.DRange[1]
 		d := chunkDesc{lo: c.DRange[0], hi: c.DRange[1]}
 		switch {
-		case c.Codec == rac.CodecZeroes:
+		case c.Codec == rac.CodecZeroes || c.Codec == rac.Codec(1<<63):
 			d.data = make([]byte, c.DRange.Size())
 		case c.Codec == rac.CodecLZ4 && tf.stored:
 			p := tf.enc[c.CPrimary[0]:]
@@ -358,7 +358,8 @@ func genWriterFile(rng *hlib.Rand, big bool) (*testFile, []byte, string) {
 		w.CPageSize = uint64(16 << uint(rng.Intn(5)))
 		desc += fmt.Sprintf(" cpage=%d", w.CPageSize)
 	}
-	if rng.Chance(1, 4) && n > 2000 {
+	// (CChunkSize together with shared dictionaries makes Writer.Write fail in flatecut: not a C14 matter)
+	if rng.Chance(1, 4) && n > 2000 && w.CChunkSize == 0 {
 		w.ResourcesData = [][]byte{src[:1000], genData(seed+1, 0, 500)}
 		desc += " dict"
 	}
@@ -369,6 +370,17 @@ func genWriterFile(rng *hlib.Rand, big bool) (*testFile, []byte, string) {
 		return nil, nil, "Writer.Close: " + err.Error()
 	}
 	return &testFile{family: "F1", enc: buf.Bytes(), desc: desc, seed: seed}, src, ""
+}
+
+func zlibCompressDict(b []byte, dict []byte) []byte {
+	buf := &bytes.Buffer{}
+	zw, err := zlib.NewWriterLevelDict(buf, zlib.BestCompression, dict)
+	if err != nil {
+		panic(err)
+	}
+	zw.Write(b)
+	zw.Close()
+	return buf.Bytes()
 }
 
 func zlibCompress(b []byte) []byte {
@@ -410,6 +422,30 @@ func genChunkFile(rng *hlib.Rand, kind string) (*testFile, string) {
 	desc := fmt.Sprintf("%s chunks=%d", kind, nChunks)
 	seed := rng.Uint64()
 	dpos := int64(0)
+	zeroCodec := rac.CodecZeroes
+	if kind == "zeroes" && rng.Chance(1, 3) {
+		zeroCodec = rac.Codec(1 << 63) // codecLongZeroes
+		desc += " long"
+	}
+	var dicts [][]byte
+	var dictIDs []rac.OptResource
+	if kind == "zlib-dict" {
+		// dictionaries are slices of the same stream the chunks are cut from, so they do help
+		for _, n := range []int{3000, 40, 700}[:1+rng.Intn(3)] {
+			d := genData(seed, int64(rng.Intn(2000)), n)
+			wrapped, werr := (&raczlib.CodecWriter{}).WrapResource(d)
+			if werr != nil {
+				return nil, "WrapResource: " + werr.Error()
+			}
+			id, aerr := w.AddResource(wrapped)
+			if aerr != nil {
+				return nil, "AddResource: " + aerr.Error()
+			}
+			dicts = append(dicts, d)
+			dictIDs = append(dictIDs, id)
+		}
+		desc += fmt.Sprintf(" dicts=%d", len(dicts))
+	}
 	for i := 0; i < nChunks; i++ {
 		dsize := sizes[rng.Intn(len(sizes))]
 		if rng.Chance(1, 3) {
@@ -418,7 +454,20 @@ func genChunkFile(rng *hlib.Rand, kind string) (*testFile, string) {
 		var err error
 		switch kind {
 		case "zeroes":
-			err = w.AddChunk(uint64(dsize), rac.CodecZeroes, nil, 0, 0)
+			err = w.AddChunk(uint64(dsize), zeroCodec, nil, 0, 0)
+		case "zlib-dict":
+			// hand-made shared dictionaries of different sizes, chosen per chunk (exercises
+			// racdict.Loader's cache and buffer re-use): 0 = none, 1.. = resource
+			explicit := dsize
+			if rng.Chance(1, 3) {
+				explicit = rng.Intn(dsize + 1)
+			}
+			which := rng.Intn(len(dicts) + 1)
+			if which == 0 {
+				err = w.AddChunk(uint64(dsize), rac.CodecZlib, zlibCompress(genData(seed, dpos, explicit)), 0, 0)
+			} else {
+				err = w.AddChunk(uint64(dsize), rac.CodecZlib, zlibCompressDict(genData(seed, dpos, explicit), dicts[which-1]), dictIDs[which-1], 0)
+			}
 		case "zlib":
 			explicit := dsize
 			switch rng.Intn(4) {
